@@ -450,6 +450,88 @@ theorem ensureParentDirs_run_one (p d : Bytes) (s : DState) (hp : p ≠ []) (hf 
   rw [run_bind, h2]
   rfl
 
+/-- is the name that of a symbolic link (`lstat`) -/
+def isLinkAt (s : DState) (p : Bytes) : Bool :=
+  match s.fs.lookup (absPath s p) with | some (.symlink _) => true | _ => false
+
+theorem isLinkAt_of_lookup {s : DState} {p : Bytes} {t : Bytes} (h : s.fs.lookup (absPath s p) = some (.symlink t)) :
+    isLinkAt s p = true := by unfold isLinkAt; rw [h]
+theorem isLinkAt_of_not_link {s : DState} {p : Bytes} (h : ∀ t, s.fs.lookup (absPath s p) ≠ some (.symlink t)) :
+    isLinkAt s p = false := by
+  unfold isLinkAt
+  split
+  · next t ht => exact absurd ht (h t)
+  · rfl
+theorem isLinkAt_of_none {s : DState} {p : Bytes} (h : s.fs.lookup (absPath s p) = none) : isLinkAt s p = false :=
+  isLinkAt_of_not_link (fun t ht => by rw [h] at ht; cases ht)
+theorem isLinkAt_of_file {s : DState} {p : Bytes} {b m} (h : s.fs.lookup (absPath s p) = some (.file b m)) :
+    isLinkAt s p = false :=
+  isLinkAt_of_not_link (fun t ht => by rw [h] at ht; cases ht)
+
+theorem doOp_cwd {op : FsOp} {s s' : DState} {r : Except Exn Unit} (h : (doOp op).run s = (r, s')) : s'.cwd = s.cwd := by
+  rcases doOp_cases h with ⟨_, _, _, rfl⟩ | ⟨_, rfl⟩ <;> rfl
+
+/-- is the name that of something `make_way_for` removes: a symbolic link (`lstat`) or a regular file -/
+def inWayAt (s : DState) (p : Bytes) : Bool :=
+  match s.fs.lookup (absPath s p) with | some (.symlink _) => true | some (.file _ _) => true | _ => false
+
+theorem inWayAt_of_link {s : DState} {p : Bytes} {t : Bytes} (h : s.fs.lookup (absPath s p) = some (.symlink t)) :
+    inWayAt s p = true := by unfold inWayAt; rw [h]
+theorem inWayAt_of_file {s : DState} {p : Bytes} {b m} (h : s.fs.lookup (absPath s p) = some (.file b m)) :
+    inWayAt s p = true := by unfold inWayAt; rw [h]
+theorem inWayAt_of_isLinkAt {s : DState} {p : Bytes} (h : isLinkAt s p = true) : inWayAt s p = true := by
+  unfold isLinkAt at h
+  unfold inWayAt
+  split at h
+  · next t ht => rw [ht]
+  · cases h
+theorem inWayAt_of_free {s : DState} {p : Bytes} (h1 : ∀ t, s.fs.lookup (absPath s p) ≠ some (.symlink t))
+    (h2 : ∀ b m, s.fs.lookup (absPath s p) ≠ some (.file b m)) : inWayAt s p = false := by
+  unfold inWayAt
+  split
+  · next t ht => exact absurd ht (h1 t)
+  · next b m ht => exact absurd ht (h2 b m)
+  · rfl
+theorem inWayAt_of_none {s : DState} {p : Bytes} (h : s.fs.lookup (absPath s p) = none) : inWayAt s p = false :=
+  inWayAt_of_free (fun t ht => by rw [h] at ht; cases ht) (fun b m ht => by rw [h] at ht; cases ht)
+theorem inWayAt_of_dir {s : DState} {p : Bytes} {m} (h : s.fs.lookup (absPath s p) = some (.dir m)) : inWayAt s p = false :=
+  inWayAt_of_free (fun t ht => by rw [h] at ht; cases ht) (fun b m ht => by rw [h] at ht; cases ht)
+theorem inWayAt_cases {s : DState} {p : Bytes} (h : inWayAt s p = true) :
+    (∃ t, s.fs.lookup (absPath s p) = some (.symlink t)) ∨ (∃ b m, s.fs.lookup (absPath s p) = some (.file b m)) := by
+  unfold inWayAt at h
+  split at h
+  · next t ht => exact .inl ⟨t, ht⟩
+  · next b m ht => exact .inr ⟨b, m, ht⟩
+  · cases h
+
+/-- the two tests of `make_way_for` (`is_symlink`: lstat; `is_regular_file`: stat) together, on the entry of that name itself -/
+theorem fsIsSymlink_or_fsIsRegular (s : DState) (p : Bytes) :
+    ((match s.fs.lookup (absPath s p) with | some (.symlink _) => true | _ => false) ||
+     (match s.fs.stat (absPath s p) with | some (.file _ _) => true | _ => false)) = inWayAt s p := by
+  unfold inWayAt Fs.stat
+  rcases hl : s.fs.lookup (absPath s p) with _ | n
+  · rfl
+  · cases n <;> simp
+
+/-- `make_way_for`, exactly: a symbolic link or a regular file of that name is unlinked, anything else is left alone -/
+theorem makeWayFor_run (p : Bytes) (s : DState) :
+    (makeWayFor p).run s =
+      if inWayAt s p = true then (doOp (.unlink (absPath s p))).run s else (.ok (), s) := by
+  have h1 : (fsIsSymlink p).run s =
+      (.ok (match s.fs.lookup (absPath s p) with | some (.symlink _) => true | _ => false), s) := rfl
+  have h2 : (fsIsRegular p).run s =
+      (.ok (match s.fs.stat (absPath s p) with | some (.file _ _) => true | _ => false), s) := rfl
+  unfold makeWayFor
+  rw [run_bind, h1]
+  dsimp only
+  rw [run_bind, h2]
+  dsimp only
+  rw [fsIsSymlink_or_fsIsRegular]
+  cases inWayAt s p
+  · rfl
+  · simp only [↓reduceIte]
+    rw [run_bind, run_get]
+
 theorem makeBackupFor_run (o : Options) (p : Bytes) (s : DState) :
     (makeBackupFor o p).run s =
       if s.backedUp.contains (backupName o p) = true then (.ok (), s)
@@ -457,28 +539,66 @@ theorem makeBackupFor_run (o : Options) (p : Bytes) (s : DState) :
         | (.ok _, s1) =>
           if (s1.fs.stat (absPath s1 p)).isSome = true then
             (doOp (.rename (absPath s1 p) (absPath s1 (backupName o p)))).run s1
+          else if inWayAt s1 (backupName o p) = true then
+            match (doOp (.unlink (absPath s1 (backupName o p)))).run s1 with
+            | (.ok _, s2) => (doOp (.creat (absPath s1 (backupName o p)))).run s2
+            | (.error e, s2) => (.error e, s2)
           else (doOp (.creat (absPath s1 (backupName o p)))).run s1
         | (.error e, s1) => (.error e, s1) := by
   unfold makeBackupFor opRename opCreat
-  simp only [run_bind, run_get, run_ite, run_set, run_fsExists, run_pure]
+  simp only [run_bind, run_get, run_ite, run_set, run_fsExists, run_pure, makeWayFor_run]
   cases hc : s.backedUp.contains (backupName o p)
   · simp only [Bool.not_false, Bool.false_eq_true, ↓reduceIte]
     rcases (ensureParentDirs (backupName o p)).run { s with backedUp := s.backedUp ++ [backupName o p] } with ⟨r, s1⟩
-    cases r <;> rfl
+    cases r
+    · rfl
+    · dsimp only
+      split
+      · rfl
+      · cases inWayAt s1 (backupName o p)
+        · rfl
+        · simp only [↓reduceIte]
+          rcases hr : (doOp (.unlink (absPath s1 (backupName o p)))).run s1 with ⟨r2, s2⟩
+          cases r2
+          · rfl
+          · show (doOp (.creat (absPath s2 (backupName o p)))).run s2 = _
+            rw [absPath_cwd (doOp_cwd hr)]
   · simp only [Bool.not_true, Bool.false_eq_true, ↓reduceIte]
 
 /-- `openRejects`, exactly: a later opening in the same run adds to the file (and creates it if it is gone), the first one
-    replaces what was there -/
-theorem openRejects_run (rej : Bytes) (s : DState) :
-    (openRejects rej).run s =
+    replaces what was there — when the name is derived (no `-r`), a symbolic link or a regular file of that name is removed first,
+    it is not written through or into; a file named with `-r` is written as it is -/
+theorem openRejects_run (o : Options) (rej : Bytes) (s : DState) :
+    (openRejects o rej).run s =
       if s.rejWritten.contains rej = true then
         (if (s.fs.stat (absPath s rej)).isSome = true then (.ok (), s) else (doOp (.creat (absPath s rej))).run s)
+      else if (o.rejectFile.isEmpty && inWayAt s rej) = true then
+        match (doOp (.unlink (absPath s rej))).run { s with rejWritten := s.rejWritten ++ [rej] } with
+        | (.ok _, s2) => (doOp (.creat (absPath s rej))).run s2
+        | (.error e, s2) => (.error e, s2)
       else (doOp (.creat (absPath s rej))).run { s with rejWritten := s.rejWritten ++ [rej] } := by
   unfold openRejects opCreat
-  simp only [run_bind, run_get, run_ite, run_set, run_fsExists, run_pure]
+  simp only [run_bind, run_get, run_ite, run_set, run_fsExists, run_pure, makeWayFor_run]
   cases hc : s.rejWritten.contains rej
   · simp only [Bool.false_eq_true, ↓reduceIte]
-    rfl
+    have e1 : inWayAt { s with rejWritten := s.rejWritten ++ [rej] } rej = inWayAt s rej := rfl
+    rw [e1]
+    cases o.rejectFile.isEmpty
+    · simp only [Bool.false_eq_true, ↓reduceIte, Bool.false_and]
+      rfl
+    · simp only [↓reduceIte, Bool.true_and]
+      cases inWayAt s rej
+      · rfl
+      · simp only [↓reduceIte]
+        have e2 : absPath { s with rejWritten := s.rejWritten ++ [rej] } rej = absPath s rej := rfl
+        rw [e2]
+        rcases hr : (doOp (.unlink (absPath s rej))).run { s with rejWritten := s.rejWritten ++ [rej] } with ⟨r2, s2⟩
+        cases r2
+        · rfl
+        · show (doOp (.creat (absPath s2 rej))).run s2 = _
+          have hc2 := doOp_cwd hr
+          rw [absPath_cwd hc2]
+          rfl
   · simp only [↓reduceIte]
     cases (s.fs.stat (absPath s rej)).isSome <;> simp
 
@@ -790,12 +910,28 @@ theorem promptForFilepath_quiet : ∀ n, Quiet (promptForFilepath n)
     have ih := promptForFilepath_quiet n
     unfold promptForFilepath; spec_walk good_quiet
 
+/-- `make_way_for` in any `Good` specification that tolerates the `unlink` -/
+theorem makeWayFor_spec {R E} (g : Good R E) (p : Bytes) (h3 : ∀ a, Spec R E (doOp (.unlink a))) :
+    Spec R E (makeWayFor p) := by
+  constructor
+  · intro s a s' h
+    rw [makeWayFor_run] at h
+    split at h
+    · exact (h3 _).ok _ _ _ h
+    · cases h; exact g.refl s
+  · intro s e s' h
+    rw [makeWayFor_run] at h
+    split at h
+    · exact (h3 _).err _ _ _ h
+    · cases h
+
 /-- `makeBackupFor` in any `Good` specification that tolerates the bookkeeping, the creation of the directories of the backup name and
-    the two possible operations -/
+    the three possible operations (the `unlink` is that of a symbolic link or regular file which has the name of the empty backup) -/
 theorem makeBackupFor_spec {R E} (g : Good R E) (o : Options) (p : Bytes)
     (hb : ∀ s bn, R s { s with backedUp := s.backedUp ++ [bn] })
     (h0 : Spec R E (ensureParentDirs (backupName o p)))
-    (h1 : ∀ a b, Spec R E (doOp (.rename a b))) (h2 : ∀ a, Spec R E (doOp (.creat a))) :
+    (h1 : ∀ a b, Spec R E (doOp (.rename a b))) (h2 : ∀ a, Spec R E (doOp (.creat a)))
+    (h3 : ∀ a, Spec R E (doOp (.unlink a))) :
     Spec R E (makeBackupFor o p) := by
   constructor
   · intro s a s' h
@@ -807,7 +943,11 @@ theorem makeBackupFor_spec {R E} (g : Good R E) (o : Options) (p : Bytes)
         have r1 := g.trans (hb s _) (h0.ok _ _ _ h0')
         split at h
         · exact g.trans r1 ((h1 _ _).ok _ _ _ h)
-        · exact g.trans r1 ((h2 _).ok _ _ _ h)
+        · split at h
+          · split at h
+            · next _ s2 hu => exact g.trans r1 (g.trans ((h3 _).ok _ _ _ hu) ((h2 _).ok _ _ _ h))
+            · cases h
+          · exact g.trans r1 ((h2 _).ok _ _ _ h)
       · cases h
   · intro s e s' h
     rw [makeBackupFor_run] at h
@@ -818,24 +958,29 @@ theorem makeBackupFor_spec {R E} (g : Good R E) (o : Options) (p : Bytes)
         have r1 := g.trans (hb s _) (h0.ok _ _ _ h0')
         split at h
         · exact g.absorb r1 ((h1 _ _).err _ _ _ h)
-        · exact g.absorb r1 ((h2 _).err _ _ _ h)
+        · split at h
+          · split at h
+            · next _ s2 hu => exact g.absorb r1 (g.absorb ((h3 _).ok _ _ _ hu) ((h2 _).err _ _ _ h))
+            · next e' s2 hu => cases h; exact g.absorb r1 ((h3 _).err _ _ _ hu)
+          · exact g.absorb r1 ((h2 _).err _ _ _ h)
       · next e' s1 h0' =>
         cases h
         exact g.absorb (hb s _) (h0.err _ _ _ h0')
 
 theorem makeBackupFor_quiet (o : Options) (p : Bytes) : Quiet (makeBackupFor o p) :=
   makeBackupFor_spec good_quiet o p (fun _ _ => QR.of_eq rfl rfl) (ensureParentDirs_quiet _) (fun _ _ => Quiet.doOp _)
-    (fun _ => Quiet.doOp _)
+    (fun _ => Quiet.doOp _) (fun _ => Quiet.doOp _)
 
 theorem makeBackupFor_trExt {A : FsOp → Prop} (h0 : ∀ a, A (.mkdir a)) (h1 : ∀ a b, A (.rename a b)) (h2 : ∀ a, A (.creat a))
-    (o : Options) (p : Bytes) : TrExt A (makeBackupFor o p) :=
+    (h3 : ∀ a, A (.unlink a)) (o : Options) (p : Bytes) : TrExt A (makeBackupFor o p) :=
   makeBackupFor_spec (good_ext A) o p (fun _ _ => ExtR.of_eq rfl) (ensureParentDirs_trExt h0 _) (fun _ _ => TrExt.doOp (h1 _ _))
-    (fun _ => TrExt.doOp (h2 _))
+    (fun _ => TrExt.doOp (h2 _)) (fun _ => TrExt.doOp (h3 _))
 
-/-- `openRejects` in any `Good` specification that tolerates the bookkeeping and the `creat` -/
-theorem openRejects_spec {R E} (g : Good R E) (rej : Bytes)
+/-- `openRejects` in any `Good` specification that tolerates the bookkeeping, the `creat`, and the `unlink` of a symbolic link or regular
+    file which has the (derived) name of the reject file -/
+theorem openRejects_spec {R E} (g : Good R E) (o : Options) (rej : Bytes)
     (hb : ∀ s x, R s { s with rejWritten := s.rejWritten ++ [x] })
-    (h2 : ∀ a, Spec R E (doOp (.creat a))) : Spec R E (openRejects rej) := by
+    (h2 : ∀ a, Spec R E (doOp (.creat a))) (h3 : ∀ a, Spec R E (doOp (.unlink a))) : Spec R E (openRejects o rej) := by
   constructor
   · intro s a s' h
     rw [openRejects_run] at h
@@ -843,25 +988,34 @@ theorem openRejects_spec {R E} (g : Good R E) (rej : Bytes)
     · split at h
       · cases h; exact g.refl s
       · exact (h2 _).ok _ _ _ h
-    · exact g.trans (hb s _) ((h2 _).ok _ _ _ h)
+    · split at h
+      · split at h
+        · next _ s2 hu => exact g.trans (hb s _) (g.trans ((h3 _).ok _ _ _ hu) ((h2 _).ok _ _ _ h))
+        · cases h
+      · exact g.trans (hb s _) ((h2 _).ok _ _ _ h)
   · intro s e s' h
     rw [openRejects_run] at h
     split at h
     · split at h
       · cases h
       · exact (h2 _).err _ _ _ h
-    · exact g.absorb (hb s _) ((h2 _).err _ _ _ h)
+    · split at h
+      · split at h
+        · next _ s2 hu => exact g.absorb (hb s _) (g.absorb ((h3 _).ok _ _ _ hu) ((h2 _).err _ _ _ h))
+        · next e' s2 hu => cases h; exact g.absorb (hb s _) ((h3 _).err _ _ _ hu)
+      · exact g.absorb (hb s _) ((h2 _).err _ _ _ h)
 
-theorem openRejects_quiet (rej : Bytes) : Quiet (openRejects rej) :=
-  openRejects_spec good_quiet rej (fun _ _ => QR.of_eq rfl rfl) (fun _ => Quiet.doOp _)
-theorem openRejects_trExt {A : FsOp → Prop} (h : ∀ p, A (.creat p)) (rej : Bytes) : TrExt A (openRejects rej) :=
-  openRejects_spec (good_ext A) rej (fun _ _ => ExtR.of_eq rfl) (fun _ => TrExt.doOp (h _))
-theorem writeRejects_quiet (rej b : Bytes) : Quiet (writeRejects rej b) := by
+theorem openRejects_quiet (o : Options) (rej : Bytes) : Quiet (openRejects o rej) :=
+  openRejects_spec good_quiet o rej (fun _ _ => QR.of_eq rfl rfl) (fun _ => Quiet.doOp _) (fun _ => Quiet.doOp _)
+theorem openRejects_trExt {A : FsOp → Prop} (h : ∀ p, A (.creat p)) (h3 : ∀ p, A (.unlink p)) (o : Options) (rej : Bytes) :
+    TrExt A (openRejects o rej) :=
+  openRejects_spec (good_ext A) o rej (fun _ _ => ExtR.of_eq rfl) (fun _ => TrExt.doOp (h _)) (fun _ => TrExt.doOp (h3 _))
+theorem writeRejects_quiet (o : Options) (rej b : Bytes) : Quiet (writeRejects o rej b) := by
   have := openRejects_quiet
   unfold writeRejects; spec_walk good_quiet
-theorem writeRejects_trExt {A : FsOp → Prop} (h1 : ∀ p, A (.creat p)) (h2 : ∀ p b, A (.write p b)) (rej b : Bytes) :
-    TrExt A (writeRejects rej b) := by
-  have := openRejects_trExt h1
+theorem writeRejects_trExt {A : FsOp → Prop} (h1 : ∀ p, A (.creat p)) (h2 : ∀ p b, A (.write p b)) (hu : ∀ p, A (.unlink p))
+    (o : Options) (rej b : Bytes) : TrExt A (writeRejects o rej b) := by
+  have := openRejects_trExt h1 hu
   have := opWrite_trExt h2
   unfold writeRejects; spec_walk (good_ext A)
 
@@ -870,7 +1024,7 @@ theorem makeWritable_quiet (perm : PermResult) (p : Bytes) : Quiet (makeWritable
 
 macro_rules | `(tactic| spec_leaf $_) => `(tactic| with_reducible first
   | exact promptForFilepath_quiet _ | exact makeBackupFor_quiet _ _ | exact makeWritable_quiet _ _
-  | exact openRejects_quiet _ | exact writeRejects_quiet _ _)
+  | exact openRejects_quiet _ _ | exact writeRejects_quiet _ _ _)
 
 theorem writePatchedResult_quiet (o : Options) (p : Patch) (f : Bytes) (perm : PermResult) (sb : Bool) (c : Bytes) :
     Quiet (writePatchedResult o p f perm sb c) := by
@@ -1005,7 +1159,7 @@ macro_rules | `(tactic| quiet_leaf) => `(tactic| with_reducible first
   | exact guessFilepath_quiet _ _ | exact checkWithUser_quiet _ _
   | exact promptForFilepath_quiet _ | exact makeBackupFor_quiet _ _ | exact writePatchedResult_quiet _ _ _ _ _ _
   | exact makeWritable_quiet _ _
-  | exact openRejects_quiet _ | exact writeRejects_quiet _ _
+  | exact openRejects_quiet _ _ | exact writeRejects_quiet _ _ _
   | exact finalizeDeferred_quiet _
   | exact Quiet.doOp _ | exact Quiet.tryOp _ _)
 
@@ -1329,8 +1483,8 @@ theorem runPatch_honest (o : Options) (s0 s : DState) (h0 : Honest s0) (h : (pro
 
 `writeNow` is the common part of the direct branch of `writePatchedResult` (`writePatchedResult_direct`) and of the loop
 body of `finalizeDeferred` (`finalizeDeferred_eq`).  `writeNow_shape`: the operations it performs are `M ++ B ++ W ++ C` with
-`M` the `mkdir`s of the directories of the backup name, `B` the backup (`rename` to the backup name / `creat` of an empty backup,
-or nothing), `W` the `chmod` of a read-only target that is still there (or nothing), `C` the `creat` of the target followed by
+`M` the `mkdir`s of the directories of the backup name, `B` the backup (`BackupOps`: `rename` to the backup name / `creat` of an empty
+backup, after the `unlink` of a symbolic link of that name / nothing), `W` the `chmod` of a read-only target that is still there (or nothing), `C` the `creat` of the target followed by
 its `write` and the `chmod` of the permission callback.
 `ChmodLate`: every `chmod` comes after the `creat` of the same path, or directly before the creation it prepares
 (or is the last operation before an I/O error); `Late m := Spec LateR LateE m`, `processSection_late`, `finalizeDeferred_late`,
@@ -1383,7 +1537,7 @@ theorem finalizeDeferred_eq (o : Options) :
 
 theorem removeNow_trExt {A : FsOp → Prop} (h0 : ∀ a, A (.mkdir a)) (h1 : ∀ a b, A (.rename a b)) (h2 : ∀ a, A (.creat a))
     (h3 : ∀ p, A (.unlink p)) (h4 : ∀ p, A (.rmdir p)) (o : Options) (p : Bytes) (b : Bool) : TrExt A (removeNow o p b) := by
-  have := makeBackupFor_trExt h0 h1 h2 o
+  have := makeBackupFor_trExt h0 h1 h2 h3 o
   have := removeFileAndEmptyParents_trExt h3 h4
   unfold removeNow; spec_walk (good_ext A)
 
@@ -1403,16 +1557,23 @@ theorem makeWritable_shape (perm : PermResult) (p : Bytes) {s s1 : DState} {r : 
     · cases h; exact ⟨rfl, rfl, [], by simp, Or.inl rfl, fun e he => by cases he⟩
   · cases h; exact ⟨rfl, rfl, [], by simp, Or.inl rfl, fun e he => by cases he⟩
 
+/-- the possible backup operations `B` for the file `p` with backup name `bn` (absolute paths): nothing, the `rename` of the file to its
+    backup name, or — for a file which does not exist — the `creat` of an empty backup, preceded by the `unlink` of a symbolic link
+    which has the backup name (`[unlink bn]` alone: the `creat` then failed) -/
+def BackupOps (p bn : Bytes) (B : List FsOp) : Prop :=
+  B = [] ∨ B = [FsOp.rename p bn] ∨ B = [FsOp.creat bn] ∨ B = [FsOp.unlink bn] ∨ B = [FsOp.unlink bn, FsOp.creat bn]
+
 /-- the backup step: the `mkdir`s `M` of the directories of the backup name (a prefix like `bak/` may name a directory that does
     not exist yet), then the backup operation `B` itself -/
 theorem backupStep_shape (o : Options) (sb : Bool) (p : Bytes) {s s1 : DState} {r : Except Exn Unit}
     (h : (if sb = true then makeBackupFor o p else pure ()).run s = (r, s1)) :
     s1.cwd = s.cwd ∧ ∃ M B, s1.trace = s.trace ++ M ++ B ∧
       (∀ op ∈ M, ∃ d ∈ dirPrefixes (backupName o p), op = FsOp.mkdir (absPath s d)) ∧
-      (B = [] ∨ B = [FsOp.rename (absPath s p) (absPath s (backupName o p))] ∨ B = [FsOp.creat (absPath s (backupName o p))]) ∧
-      (sb = true → s.backedUp.contains (backupName o p) = false → r = .ok () → B ≠ []) ∧
+      BackupOps (absPath s p) (absPath s (backupName o p)) B ∧
+      (sb = true → s.backedUp.contains (backupName o p) = false → r = .ok () →
+        B ≠ [] ∧ B ≠ [FsOp.unlink (absPath s (backupName o p))]) ∧
       (sb = false ∨ s.backedUp.contains (backupName o p) = true → M = [] ∧ B = []) ∧
-      (∀ e, r = .error e → e = .systemError ∧ B = []) := by
+      (∀ e, r = .error e → e = .systemError ∧ (B = [] ∨ B = [FsOp.unlink (absPath s (backupName o p))])) := by
   split at h
   · next hsb =>
     rw [makeBackupFor_run] at h
@@ -1433,22 +1594,40 @@ theorem backupStep_shape (o : Options) (sb : Bool) (p : Bytes) {s s1 : DState} {
         have hM : ∀ op ∈ M, ∃ d ∈ dirPrefixes (backupName o p), op = FsOp.mkdir (absPath s d) := hM
         split at h
         · rcases doOp_cases h with ⟨rfl, fs2, _, rfl⟩ | ⟨rfl, rfl⟩
-          · exact ⟨rfl, M, [_], by show t ++ _ = _; rw [tM]; rfl, hM, Or.inr (Or.inl rfl), fun _ _ _ => by simp, fun h => absurd h hc',
-              fun e he => by cases he⟩
+          · exact ⟨rfl, M, [_], by show t ++ _ = _; rw [tM]; rfl, hM, Or.inr (Or.inl rfl), fun _ _ _ => ⟨by simp, by simp⟩,
+              fun h => absurd h hc', fun e he => by cases he⟩
           · exact ⟨rfl, M, [], by show t = _; rw [tM]; simp, hM, Or.inl rfl, fun _ _ he => (by cases he), fun h => absurd h hc',
-              fun e he => by cases he; exact ⟨rfl, rfl⟩⟩
-        · rcases doOp_cases h with ⟨rfl, fs2, _, rfl⟩ | ⟨rfl, rfl⟩
-          · exact ⟨rfl, M, [_], by show t ++ _ = _; rw [tM]; rfl, hM, Or.inr (Or.inr rfl), fun _ _ _ => by simp, fun h => absurd h hc',
-              fun e he => by cases he⟩
-          · exact ⟨rfl, M, [], by show t = _; rw [tM]; simp, hM, Or.inl rfl, fun _ _ he => (by cases he), fun h => absurd h hc',
-              fun e he => by cases he; exact ⟨rfl, rfl⟩⟩
+              fun e he => by cases he; exact ⟨rfl, Or.inl rfl⟩⟩
+        · split at h
+          · split at h
+            · next _ s3 hu =>
+              rcases doOp_cases hu with ⟨_, fs2, _, rfl⟩ | ⟨hu', _⟩
+              · rcases doOp_cases h with ⟨rfl, fs3, _, rfl⟩ | ⟨rfl, rfl⟩
+                · exact ⟨rfl, M, [FsOp.unlink (absPath s (backupName o p)), FsOp.creat (absPath s (backupName o p))],
+                    by show t ++ [_] ++ [_] = _; rw [tM]; simp only [List.append_assoc]; rfl, hM, Or.inr (Or.inr (Or.inr (Or.inr rfl))),
+                    fun _ _ _ => ⟨by simp, by simp⟩, fun h => absurd h hc', fun e he => by cases he⟩
+                · exact ⟨rfl, M, [_], by show t ++ _ = _; rw [tM]; rfl, hM, Or.inr (Or.inr (Or.inr (Or.inl rfl))),
+                    fun _ _ he => (by cases he), fun h => absurd h hc', fun e he => by cases he; exact ⟨rfl, Or.inr rfl⟩⟩
+              · cases hu'
+            · next e s3 hu =>
+              cases h
+              rcases doOp_cases hu with ⟨hu', _⟩ | ⟨hu', rfl⟩
+              · cases hu'
+              · cases hu'
+                exact ⟨rfl, M, [], by show t = _; rw [tM]; simp, hM, Or.inl rfl, fun _ _ he => (by cases he),
+                  fun h => absurd h hc', fun e he => by cases he; exact ⟨rfl, Or.inl rfl⟩⟩
+          · rcases doOp_cases h with ⟨rfl, fs2, _, rfl⟩ | ⟨rfl, rfl⟩
+            · exact ⟨rfl, M, [_], by show t ++ _ = _; rw [tM]; rfl, hM, Or.inr (Or.inr (Or.inl rfl)), fun _ _ _ => ⟨by simp, by simp⟩,
+                fun h => absurd h hc', fun e he => by cases he⟩
+            · exact ⟨rfl, M, [], by show t = _; rw [tM]; simp, hM, Or.inl rfl, fun _ _ he => (by cases he), fun h => absurd h hc',
+                fun e he => by cases he; exact ⟨rfl, Or.inl rfl⟩⟩
       · next e s2 h0 =>
         cases h
         obtain ⟨⟨fs', t, n, rfl⟩, ⟨M, tM, hM⟩, herr, -⟩ := ensureParentDirs_shape _ h0
         have tM : t = s.trace ++ M := tM
         have hM : ∀ op ∈ M, ∃ d ∈ dirPrefixes (backupName o p), op = FsOp.mkdir (absPath s d) := hM
         exact ⟨rfl, M, [], by show t = _; rw [tM]; simp, hM, Or.inl rfl, fun _ _ he => (by cases he), fun h => absurd h hc',
-          fun e' he => by cases he; exact ⟨herr _ rfl, rfl⟩⟩
+          fun e' he => by cases he; exact ⟨herr _ rfl, Or.inl rfl⟩⟩
   · next hsb =>
     cases h
     exact ⟨rfl, [], [], by simp, by simp, Or.inl rfl, fun h => absurd h hsb, fun _ => ⟨rfl, rfl⟩, fun e he => by cases he⟩
@@ -1504,12 +1683,12 @@ theorem writeNow_shape (o : Options) (out : Bytes) (perm : PermResult) (sb : Boo
     {s s' : DState} {r : Except Exn Unit} (h : (writeNow o out perm sb content nm).run s = (r, s')) :
     s'.cwd = s.cwd ∧ ∃ M B W C, s'.trace = s.trace ++ M ++ B ++ W ++ C ∧
       (∀ op ∈ M, ∃ d ∈ dirPrefixes (backupName o out), op = FsOp.mkdir (absPath s d)) ∧
-      (B = [] ∨ B = [FsOp.rename (absPath s out) (absPath s (backupName o out))] ∨
-        B = [FsOp.creat (absPath s (backupName o out))]) ∧
+      BackupOps (absPath s out) (absPath s (backupName o out)) B ∧
       (W = [] ∨ ∃ m, W = [FsOp.chmod (absPath s out) m]) ∧
       (C = [] ∨ ∃ C', C = FsOp.creat (absPath s out) :: C' ∧
         ∀ op ∈ C', (∃ b, op = FsOp.write (absPath s out) b) ∨ ∃ m, op = FsOp.chmod (absPath s out) m) ∧
-      (sb = true → s.backedUp.contains (backupName o out) = false → B = [] → W = [] ∧ C = []) ∧
+      (sb = true → s.backedUp.contains (backupName o out) = false →
+        B = [] ∨ B = [FsOp.unlink (absPath s (backupName o out))] → W = [] ∧ C = []) ∧
       (sb = false ∨ s.backedUp.contains (backupName o out) = true → M = [] ∧ B = []) ∧
       (r = .ok () → C ≠ []) ∧ (∀ e, r = .error e → e = .systemError) := by
   unfold writeNow at h
@@ -1542,7 +1721,9 @@ theorem writeNow_shape (o : Options) (out : Bytes) (perm : PermResult) (sb : Boo
               · cases h
               · rw [List.mem_singleton.1 h]; exact Or.inr ⟨m, rfl⟩
         · intro hsb hn hb
-          exact absurd hb (hB1 hsb hn rfl)
+          rcases hb with hb | hb
+          · exact absurd hb (hB1 hsb hn rfl).1
+          · exact absurd hb (hB1 hsb hn rfl).2
         · intro _ hc
           exact hne (List.append_eq_nil_iff.1 hc).1
       · next e s3 h3 =>
@@ -1556,7 +1737,9 @@ theorem writeNow_shape (o : Options) (out : Bytes) (perm : PermResult) (sb : Boo
           · exact Or.inl h
           · exact Or.inr ⟨C', rfl, fun op hop => Or.inl (hC' op hop)⟩
         · intro hsb hn hb
-          exact absurd hb (hB1 hsb hn rfl)
+          rcases hb with hb | hb
+          · exact absurd hb (hB1 hsb hn rfl).1
+          · exact absurd hb (hB1 hsb hn rfl).2
     · next e s2 h2 =>
       cases h
       obtain ⟨c2, -, W, t2, hW, herr⟩ := makeWritable_shape _ _ h2
@@ -1565,7 +1748,9 @@ theorem writeNow_shape (o : Options) (out : Bytes) (perm : PermResult) (sb : Boo
         fun e he => (by cases he; exact (herr _ rfl).1)⟩
       · rw [t2, t1]; simp
       · intro hsb hn hb
-        exact absurd hb (hB1 hsb hn rfl)
+        rcases hb with hb | hb
+        · exact absurd hb (hB1 hsb hn rfl).1
+        · exact absurd hb (hB1 hsb hn rfl).2
   · next e s1 h1 =>
     cases h
     obtain ⟨c1, M, B, t1, hM, hB, -, hB2, herr⟩ := backupStep_shape _ _ _ h1
@@ -1669,7 +1854,7 @@ theorem ChmodLate.created {q : Bytes} {C' : List FsOp}
 /-- the blocks `M ++ B ++ W ++ C` of `writeNow_shape` -/
 theorem ChmodLate.of_shape {d : Prop} {q : Bytes} {M B W C : List FsOp}
     (hM : ∀ op ∈ M, ∃ x, op = FsOp.mkdir x)
-    (hB : B = [] ∨ (∃ a b, B = [FsOp.rename a b]) ∨ ∃ b, B = [FsOp.creat b])
+    (hB : ∀ op ∈ B, NoChmod op)
     (hW : W = [] ∨ ∃ m, W = [FsOp.chmod q m])
     (hC : C = [] ∨ ∃ C', C = FsOp.creat q :: C' ∧ ∀ op ∈ C', (∃ b, op = FsOp.write q b) ∨ ∃ m, op = FsOp.chmod q m)
     (hd : d ∨ C ≠ []) : ChmodLate d (M ++ B ++ W ++ C) := by
@@ -1678,17 +1863,7 @@ theorem ChmodLate.of_shape {d : Prop} {q : Bytes} {M B W C : List FsOp}
     intro op hop
     obtain ⟨x, rfl⟩ := hM op hop
     exact fun _ _ => nofun
-  have lB : ChmodLate False B := by
-    rcases hB with rfl | ⟨a, b, rfl⟩ | ⟨b, rfl⟩
-    · exact ChmodLate.nil
-    · refine ChmodLate.of_noChmod ?_
-      intro op hop
-      rw [List.mem_singleton.1 hop]
-      exact fun _ _ => nofun
-    · refine ChmodLate.of_noChmod ?_
-      intro op hop
-      rw [List.mem_singleton.1 hop]
-      exact fun _ _ => nofun
+  have lB : ChmodLate False B := ChmodLate.of_noChmod hB
   have lC : ChmodLate False C := by
     rcases hC with rfl | ⟨C', rfl, h⟩
     · exact ChmodLate.nil
@@ -1732,10 +1907,12 @@ theorem writeNow_late (o : Options) (out : Bytes) (perm : PermResult) (sb : Bool
     obtain ⟨-, M, B, W, C, t, hM, hB, hW, hC, -, -, hok, -⟩ := writeNow_shape o out perm sb content nm h
     refine ⟨M ++ B ++ W ++ C, by rw [t]; simp only [List.append_assoc],
       ChmodLate.of_shape (fun op hop => let ⟨_, _, e⟩ := hM op hop; ⟨_, e⟩) ?_ hW hC (hd.imp id hok)⟩
-    rcases hB with h | h | h
-    · exact Or.inl h
-    · exact Or.inr (Or.inl ⟨_, _, h⟩)
-    · exact Or.inr (Or.inr ⟨_, h⟩)
+    intro op hop
+    rcases hB with h | h | h | h | h <;> rw [h] at hop <;> simp at hop
+    · rw [hop]; exact fun _ _ => nofun
+    · rw [hop]; exact fun _ _ => nofun
+    · rw [hop]; exact fun _ _ => nofun
+    · rcases hop with hop | hop <;> rw [hop] <;> exact fun _ _ => nofun
   constructor
   · intro s a s' h
     exact key s s' _ h False (Or.inr rfl)
@@ -1745,9 +1922,9 @@ theorem writeNow_late (o : Options) (out : Bytes) (perm : PermResult) (sb : Bool
 
 
 theorem refuseToPatch_trExt {A : FsOp → Prop} (h1 : ∀ p, A (.mkdir p)) (h2 : ∀ p, A (.creat p)) (h3 : ∀ p b, A (.write p b))
-    (o : Options) (f : Bytes) (p : Patch) : TrExt A (refuseToPatch o f p) := by
+    (hu : ∀ p, A (.unlink p)) (o : Options) (f : Bytes) (p : Patch) : TrExt A (refuseToPatch o f p) := by
   have := ensureParentDirs_trExt h1
-  have := openRejects_trExt h2
+  have := openRejects_trExt h2 hu
   have := opWrite_trExt h3
   unfold refuseToPatch; spec_walk (good_ext A)
 
@@ -1785,12 +1962,12 @@ macro_rules | `(tactic| nochmod_leaf) => `(tactic| with_reducible first
   | exact parseBodyM_trExt _ _
   | exact ensureParentDirs_trExt noChmod_mkdir _
   | exact writeFile_trExt noChmod_creat noChmod_write _ _
-  | exact makeBackupFor_trExt noChmod_mkdir noChmod_rename noChmod_creat _ _
+  | exact makeBackupFor_trExt noChmod_mkdir noChmod_rename noChmod_creat noChmod_unlink _ _
   | exact removeFileAndEmptyParents_trExt noChmod_unlink noChmod_rmdir _
   | exact removeNow_trExt noChmod_mkdir noChmod_rename noChmod_creat noChmod_unlink noChmod_rmdir _ _ _
-  | exact openRejects_trExt noChmod_creat _
-  | exact writeRejects_trExt noChmod_creat noChmod_write _ _
-  | exact refuseToPatch_trExt noChmod_mkdir noChmod_creat noChmod_write _ _ _)
+  | exact openRejects_trExt noChmod_creat noChmod_unlink _ _
+  | exact writeRejects_trExt noChmod_creat noChmod_write noChmod_unlink _ _ _
+  | exact refuseToPatch_trExt noChmod_mkdir noChmod_creat noChmod_write noChmod_unlink _ _ _)
 
 syntax "late_leaf" : tactic
 macro_rules | `(tactic| late_leaf) => `(tactic| with_reducible first
